@@ -294,6 +294,11 @@ class Report(object):
         os.makedirs(EVIDENCE, exist_ok=True)
 
     # -- counting -----------------------------------------------------
+    def mark(self, label):
+        """wall-clock since start, recorded in the evidence (cost accounting)"""
+        self.notes.setdefault('timeline_s', {})[label] = round(
+            time.time() - self.t0, 1)
+
     def add_tlc(self, r):
         self.cov['states'] += r.states
         self.cov['transitions'] += r.generated
